@@ -496,3 +496,131 @@ def r_seg_lookup(rep, f):
             rep.inconc("R-SEG-LOOKUP", key, unknown, b.get("sp"))
         else:
             rep.violation("R-SEG-LOOKUP", key, "no per-segment membership test guarding the returned segment", b.get("sp"))
+
+
+# ------------------------------------------------------------------------------------------ R-BDF-DENSE (C06, C07)
+def r_bdf_dense(rep, f):
+    """writer/reader agreement of BDF's per-state dense block: for every order 1..MAX_ORDER the set of slots into which
+    BDF::solve copies a backward difference (and which difference it copies there) equals the set of slots BDF::interpolate
+    adds up, slot 1+k holding D_(k+1). The guard of the writer and the range of the reader are evaluated over the finite
+    domain order x k (finite abstract evaluation of integer comparisons) - nothing numerical."""
+    SOLVE, INTERP = "methods::bdf::BDF::solve", "methods::bdf::BDF::interpolate"
+    bs, bi = f.bodies.get(SOLVE), f.bodies.get(INTERP)
+    key = "R-BDF-DENSE:blocks"
+    if bs is None or bi is None:
+        rep.inconc("R-BDF-DENSE", key, "BDF::solve / BDF::interpolate not found")
+        return
+    rep.fn(SOLVE)
+    rep.fn(INTERP)
+    from symx import SymExec, Hooks
+    cx = SymExec(f, SOLVE, Hooks())
+
+    def const_of(e):
+        if e.get("k") == "Path" and e.get("dk") in ("Const", "AssocConst"):
+            v = cx.const_value(e["def"])
+            c = v.const_value() if isinstance(v, Poly) else None
+            return float(c) if c is not None else None
+        return None
+    consts = [c for c in (const_of(q) for q in tast.find(bs["body"], lambda z: z.get("k") == "Path" and z.get("dk") == "Const" and z.get("ty") == "usize")) if c]
+    max_order = None
+    # the writer: a loop whose body stores, into a buffer indexed by `<base> + 1 + k`, a value selected by an `if` between
+    # an element of the difference table and 0
+    writer = None
+    for lp in tast.find(bs["body"], lambda z: z.get("k") == "For"):
+        kid = lp["pat"].get("id")
+        for st in tast.find(lp["body"], lambda z: z.get("k") == "Assign" and z["l"].get("k") == "Index" and tast.contains(z["l"]["i"], lambda q: q.get("k") == "Path" and q.get("id") == kid)):
+            src = st["r"]
+            if src.get("k") == "Path" and src.get("res") == "local":
+                lets = tast.find(lp["body"], lambda z: z.get("k") == "Let" and z["pat"].get("id") == src.get("id") and z.get("init") is not None)
+                src = lets[0]["init"] if lets else src
+            if src.get("k") == "If" and src.get("else") is not None:
+                two = tast.find(src["then"], lambda q: q.get("k") == "Index" and q["e"].get("k") == "Index")
+                if two and any(tast.contains(lp2["body"], lambda z: z is lp) for lp2 in tast.find(bs["body"], lambda z: z.get("k") == "For")):
+                    writer = (lp, st, src, two[0])
+    reader = None
+    cont_id = bi["params"][2].get("id") if len(bi.get("params", [])) == 5 else None
+    for lp in tast.find(bi["body"], lambda z: z.get("k") == "For"):
+        kid = lp["pat"].get("id")
+        for st in tast.find(lp["body"], lambda z: z.get("k") == "AssignOp" and z.get("op", "").startswith("Add")):
+            rd = tast.find(st["r"], lambda q: q.get("k") == "Index" and q["e"].get("k") == "Path" and q["e"].get("id") == cont_id
+                           and tast.contains(q["i"], lambda w: w.get("k") == "Path" and w.get("id") == kid))
+            if rd:
+                other = [q for q in tast.find(st["r"], lambda q: q.get("k") == "Index" and q is not rd[0] and q["e"].get("k") == "Path" and q["e"].get("id") != cont_id)]
+                reader = (lp, st, rd[0], other[0] if other else None)
+    if writer is None or reader is None:
+        rep.inconc("R-BDF-DENSE", key, "dense-block writer (%s) / reader (%s) loops not identified" % (writer is not None, reader is not None))
+        return
+    wlp, wst, wif, wsrc = writer
+    rlp, rst, rrd, rp = reader
+    # loop bound of the writer = number of difference slots = MAX_ORDER
+    rng = wlp["iter"]
+    hi = next((x["e"] for x in rng.get("fields", []) if x["name"] == "end"), None) if rng.get("k") == "Struct" else None
+    max_order = const_of(hi) if hi is not None else None
+    if not max_order:
+        rep.inconc("R-BDF-DENSE", key, "writer loop bound is not a constant")
+        return
+    max_order = int(max_order)
+
+    def ev_int(e, env, body):
+        def leaf(z):
+            if z.get("k") == "Path" and z.get("res") == "local" and z.get("id") in env:
+                return float(env[z["id"]])
+            c = const_of(z)
+            if c is not None:
+                return c
+            if z.get("k") == "Path" and z.get("res") == "local" and z.get("ty") == "usize" and NumEval(body, lambda w: None).let_of(z["id"]) is None:
+                return float(env.get("*", 0))
+            return None
+        return NumEval(body, leaf).ev(e)
+    # order variable of the writer: the usize local compared in the guard that is not the loop variable
+    wk = wlp["pat"]["id"]
+    ords = [q for q in tast.find(wif["cond"], lambda q: q.get("k") == "Path" and q.get("res") == "local" and q.get("id") != wk)]
+    rk_ = rlp["pat"]["id"]
+    r_rng = rlp["iter"]
+    probs = []
+    try:
+        for order in range(1, max_order + 1):
+            W = {}
+            for k in range(0, max_order):
+                env = {wk: k, "*": 0}
+                for o in ords:
+                    env[o["id"]] = order
+                if bool(ev_int(wif["cond"], env, bs["body"])):
+                    slot = int(ev_int(wst["l"]["i"], env, bs["body"]))
+                    didx = int(ev_int(wsrc["e"]["i"], env, bs["body"]))
+                    W[slot] = didx
+            # reader range with `order` bound to its local
+            lo_e = next((x["e"] for x in r_rng.get("fields", []) if x["name"] == "start"), None) if r_rng.get("k") == "Struct" else None
+            hi_e = next((x["e"] for x in r_rng.get("fields", []) if x["name"] == "end"), None) if r_rng.get("k") == "Struct" else None
+            if r_rng.get("k") == "Call" and len(r_rng.get("args", [])) == 2:
+                lo_e, hi_e = r_rng["args"]
+            incl = "Inclusive" in (r_rng.get("def") or "")
+            r_ord = [q for q in tast.find(hi_e, lambda q: q.get("k") == "Path" and q.get("res") == "local")] if hi_e is not None else []
+            renv = {"*": 0}
+            for o in r_ord:
+                renv[o["id"]] = order
+            lo = int(ev_int(lo_e, renv, bi["body"])) if lo_e is not None else 0
+            hi_v = int(ev_int(hi_e, renv, bi["body"])) + (1 if incl else 0)
+            R = {}
+            for k in range(lo, hi_v):
+                env = dict(renv)
+                env[rk_] = k
+                slot = int(ev_int(rrd["i"], env, bi["body"]))
+                pidx = int(ev_int(rp["i"], env, bi["body"])) if rp is not None else k
+                R[slot] = pidx
+            if set(W) != set(R):
+                probs.append("order %d: solve fills slots %s with differences, interpolate adds slots %s" % (order, sorted(W), sorted(R)))
+            else:
+                for sl in W:
+                    # slot s must hold D_s (s = 1..order) and be weighted with p[s-1]
+                    if W[sl] != sl:
+                        probs.append("order %d: slot %d receives difference D_%d" % (order, sl, W[sl]))
+                    if R[sl] != sl - 1:
+                        probs.append("order %d: slot %d is weighted with p[%d]" % (order, sl, R[sl]))
+    except _NoEval as ex_:
+        rep.inconc("R-BDF-DENSE", key, "index arithmetic not evaluated (%s)" % ex_)
+        return
+    if probs:
+        rep.violation("R-BDF-DENSE", key, "the dense block BDF::solve writes and the one BDF::interpolate reads disagree: %s" % "; ".join(probs[:3]), wif.get("sp"))
+    else:
+        rep.ok("R-BDF-DENSE", key, "for every order 1..%d: slots 1..order hold D_1..D_order and are the ones interpolate sums (with p[0..order-1])" % max_order)
